@@ -267,7 +267,21 @@ op_partition(const Plan& p, const Op& op)
     }
   const int num_subsets = 1 + (int)(op.arg(3) % views);
   int max_seg = (int)(op.arg(4) % (pdi->get_max_segment_num() + 1));
-  const int min_seg = -max_seg;
+  int min_seg = -max_seg;
+  // an asymmetric segment range (as reduce_segment_range(-2,1) leaves it) in one case in five
+  if (op.arg(8) % 5 == 0 && max_seg >= 1)
+    {
+      const int smaller = (int)(op.arg(9) % (max_seg + 1));
+      if (op.arg(10) % 2)
+        min_seg = -smaller; // fewer negative segments than positive ones
+      else
+        {
+          min_seg = -max_seg; // fewer positive segments than negative ones
+          max_seg = smaller;
+        }
+      if (min_seg != -max_seg)
+        sim::probe("partition_asymmetric_segment_range");
+    }
   sim::logf("partition views=%d rings=%d sym=%d subsets=%d maxseg=%d", views, nrings, symclass, num_subsets, max_seg);
   std::map<std::pair<int, int>, int> owner; // (segment, view) -> subset
   std::vector<long> count((size_t)num_subsets, 0);
@@ -296,8 +310,9 @@ op_partition(const Plan& p, const Op& op)
   for (int seg = min_seg; seg <= max_seg; ++seg)
     for (int v = pdi->get_min_view_num(); v <= pdi->get_max_view_num(); ++v)
       if (!owner.count(std::make_pair(seg, v)))
-        sim::fail("partition:missing", "(segment %d, view %d) is processed for no subset (views=%d subsets=%d symmetry class %d)", seg, v, views,
-                  num_subsets, symclass);
+        sim::fail(min_seg != -max_seg ? "partition:missing:asymmetric_segment_range" : "partition:missing",
+                  "(segment %d, view %d) is processed for no subset (views=%d subsets=%d segments %d..%d symmetry class %d)", seg, v, views,
+                  num_subsets, min_seg, max_seg, symclass);
   sim::probe(("partition_symclass_" + std::to_string(symclass)).c_str());
   bool balanced = true;
   for (int s = 1; s < num_subsets; ++s)
